@@ -16,7 +16,7 @@ from vcheck.checks.C11 import _canon
 PROPERTY = "C16"
 LEVEL = "exploration"
 BUDGET_S = {"quick": 50, "thorough": 700}
-FLOOR = {"quick": 1500, "thorough": 15000}
+FLOOR = {"quick": 1000, "thorough": 15000}
 MUST_REACH = ("copies_judged", "rebuilds_judged", "alias_walks", "mutations_judged", "identity_checks_judged", "config_built_objects")
 RULE = ("objects of all exported classes over the C06 domain (ports, protocols, options, wildcards, addresses incl. groups with "
         "members, address-group members, address groups, remarks, extended/standard ACEs, ACE groups, ACLs flat and grouped, "
